@@ -321,8 +321,6 @@ def r1313_function(P, rep, rule='R13.13'):
                         note(key, True, und='for `%s` a diagnostic ("%s") is reached through a decision on a value the interpreter does not know (%s)' % (seq, m, ctx.trail[-3:]))
                 note(key, True)
                 for ctx, out in rets:
-                    if not _determined(ctx) and len(rets) > 1:
-                        pass
                     if ctx.c13_looked:
                         looked += 1
                     if prior is None:
@@ -345,7 +343,7 @@ def r1313_function(P, rep, rule='R13.13'):
                         seen[sk] = True
                         if len(seen) > 400:
                             raise AnalysisBroken('more than 400 reachable function-object states')
-                        work.append((snap, nh, (trace + (d,))[-3:]))
+                        work.append((snap, nh, trace + (d,)))          # breadth-first: the shortest sequence that reaches the state
     except (AnalysisBroken, Unsupported) as ex:
         rep.undecided(rule, '%s:function:engine' % PU, 'function() cannot be interpreted on a concrete declaration: %s' % ex, where=where)
         return
@@ -367,9 +365,8 @@ def r1313_function(P, rep, rule='R13.13'):
 TYPE_LISTS = (('int',), ('unsigned', 'long'), ('double',), ('void',), ('char',))
 # (storage-class specifiers, function specifiers allowed with them)
 STORAGE_SETS = (
-    ((), True), (('typedef',), False), (('extern',), True), (('static',), True), (('_Thread_local',), False), (('__thread',), False),
-    (('static', '_Thread_local'), False), (('extern', '_Thread_local'), False), (('static', '__thread'), False), (('extern', '__thread'), False),
-    (('auto',), False), (('register',), False),
+    ((), True), (('typedef',), False), (('extern',), True), (('static',), True), (('_Thread_local',), False),
+    (('static', '_Thread_local'), False), (('extern', '_Thread_local'), False), (('auto',), False), (('register',), False),
 )
 FUNCTION_SPECS = ((), ('inline',), ('_Noreturn',), ('inline', '_Noreturn'))
 QUALIFIERS = ((), ('const',), ('volatile',), ('const', 'volatile'), ('_Atomic',), ('const', '_Atomic'))
@@ -406,7 +403,7 @@ def r1314_declspec(P, rep, rule='R13.14'):
     rep.rule(rule, 'declspec() consumes every declaration-specifier list that C11 allows completely and without a diagnostic: at most one storage-class specifier (or '
                    '_Thread_local with static/extern, 6.7.1p2), inline/_Noreturn with none/static/extern (6.7.4), qualifiers and _Atomic, an alignment specifier, with a type-specifier '
                    'list of 6.7.2p2, in several orders; lists without storage class also where no VarAttr is passed (parameters, type names). Decided by interpreting declspec() on '
-                   'concrete token lists', floor=40)
+                   'concrete token lists', floor=100)
     env = Env(P)
     u = env.u
     fd = u.fn('declspec')
@@ -655,7 +652,8 @@ def r1315_typing(P, rep, rule='R13.15'):
     rep.rule(rule, 'operands and declarations whose types C11 allows reach no typing diagnostic: additive operators on arithmetic/pointer operands (6.5.6p2, p3), calls with a '
                    'matching number of arguments through a function or a pointer to function (6.5.2.2p1, p2), assignment to every modifiable lvalue type (6.5.16p2), indirection '
                    'through every pointer to object or function (6.5.3.2p2), `&` of a non-bit-field lvalue (6.5.3.2p1), a variable of every complete object type (6.7p7), a reference '
-                   'to a declared enum tag. Decided by interpreting new_add, new_sub, funcall, add_type, unary, declaration and enum_specifier on concrete witness types', floor=80)
+                   'to a declared enum tag, `.member` on a struct or union (6.5.2.3p1), a bit-field of type _Bool/int/unsigned (6.7.2.1p5). Decided by interpreting new_add, new_sub, funcall, '
+                   'add_type, unary, declaration, enum_specifier, struct_ref and struct_members on concrete witness types', floor=85)
     env = Env(P)
     u = env.u
     tys = Types(P)
@@ -726,8 +724,6 @@ def r1315_typing(P, rep, rule='R13.15'):
         rep.undecided(rule, 'type.c:add_type:anchor', 'add_type() vanished')
     else:
         it = tenv.interp(('add_type',), models=env.token_models())
-        nenv = Env(P, 'type.c')
-        nenv.E = dict(E)
         for t in ASSIGNABLE:
             cls = 'integer' if t in INTEGER else ('floating' if t in FLOATING else t)
             _judge(R, it, 'type.c:add_type:ND_ASSIGN/%s' % cls, 'add_type',
@@ -801,7 +797,7 @@ def r1315_typing(P, rep, rule='R13.15'):
     if u.fn('struct_members') is None or [(p.type or '').replace(' ', '') for p in u.params('struct_members')] != ['Token**', 'Token*', 'Type*']:
         rep.undecided(rule, '%s:struct_members:anchor' % PU, 'struct_members(Token **rest, Token *tok, Type *ty) vanished')
     else:
-        for t in ('bool', 'int', 'uint', 'char', 'long', 'enum'):
+        for t in ('bool', 'int', 'uint'):
             def h_declspec(it, ctx, c, a, t=t):
                 if not a or not isinstance(a[0], _Ref) or not isinstance(a[1], Obj):
                     raise AnalysisBroken('declspec() is not called with the address of the token cursor')
@@ -820,9 +816,9 @@ def r1315_typing(P, rep, rule='R13.15'):
                 a[0].place.set(it, a[1].fields.get('next'))
                 return 3
             it = env.interp(('struct_members', 'is_integer', 'skip', 'consume'), cut={'declspec': h_declspec, 'declarator': h_declarator, 'const_expr': h_const_expr}, models=env.token_models())
-            cls = {'bool': '_Bool', 'int': 'signed', 'uint': 'unsigned', 'char': 'signed', 'long': 'signed', 'enum': 'enum'}[t]
+            cls = {'bool': '_Bool', 'int': 'signed-int', 'uint': 'unsigned-int'}[t]
             _judge(R, it, '%s:struct_members:bit-field/%s' % (PU, cls), 'struct_members', lambda ctx: [_Ref(_ValPlace(0)), env.tokens(['int', 'x', ':', '3', ';', '}', ';']), tys.make('struct')],
-                   'the member declaration `T x : 3;` with T = `%s`' % t, '6.7.2.1p5: a bit-field has type _Bool, signed int, unsigned int or another implementation-defined (integer) type')
+                   'the member declaration `T x : 3;` with T = `%s`' % t, '6.7.2.1p5: a bit-field shall have type _Bool, signed int or unsigned int (others are implementation-defined and not judged)')
     R.flush(rep, rule, '%s:%d' % (PU, u.fn('new_add').line if u.fn('new_add') else 1))
 
 
@@ -833,7 +829,8 @@ ICE_BINARY = ('ND_ADD', 'ND_SUB', 'ND_MUL', 'ND_DIV', 'ND_MOD', 'ND_BITAND', 'ND
 ICE_UNARY = ('ND_NEG', 'ND_NOT', 'ND_BITNOT', 'ND_CAST')
 FLOAT_BINARY = ('ND_ADD', 'ND_SUB', 'ND_MUL', 'ND_DIV')
 FLOAT_COMPARE = ('ND_EQ', 'ND_NE', 'ND_LT', 'ND_LE')
-OPERAND_TYPES = ('int', 'uint', 'long', 'ulong', 'char')
+OPERAND_TYPES = ('int', 'uint', 'long', 'ulong')            # types an operator node has after the usual arithmetic conversions
+CAST_TYPES = OPERAND_TYPES + ('char', 'uchar', 'short', 'bool')
 
 
 def r1316_constexpr(P, rep, rule='R13.16'):
@@ -898,8 +895,8 @@ def r1316_constexpr(P, rep, rule='R13.16'):
                 _judge(R, it, '%s:%s:%s/%s' % (PU, ev, k, 'unsigned' if t in ('uint', 'ulong') else 'signed'), ev, lambda ctx, k=k, t=t, rt=rt: args(tree(k, rt, num(6, t), num(3, t))),
                        'the constant expression `6 %s 3` on operands of type %s' % (k[3:], t), '6.6p6: an integer constant expression has integer constants as operands of any arithmetic, bitwise, relational or logical operator')
         for k in ICE_UNARY:
-            for t in OPERAND_TYPES + (('bool',) if k == 'ND_CAST' else ()):
-                _judge(R, it, '%s:%s:%s/%s' % (PU, ev, k, 'bool' if t == 'bool' else ('unsigned' if t in ('uint', 'ulong') else 'signed')), ev, lambda ctx, k=k, t=t: args(tree(k, 'int' if k == 'ND_NOT' else t, num(6, 'int'))),
+            for t in (CAST_TYPES if k == 'ND_CAST' else OPERAND_TYPES):
+                _judge(R, it, '%s:%s:%s/%s' % (PU, ev, k, 'bool' if t == 'bool' else ('unsigned' if t in ('uint', 'ulong', 'uchar') else 'signed')), ev, lambda ctx, k=k, t=t: args(tree(k, 'int' if k == 'ND_NOT' else t, num(6, 'int'))),
                        'the constant expression `%s 6` of type %s' % (k[3:], t), '6.6p6')
         for c in (0, 1):
             _judge(R, it, '%s:%s:ND_COND' % (PU, ev), ev, lambda ctx, c=c: args(tree('ND_COND', 'int', cond=num(c), then=num(6), els=num(3))), 'the constant expression `%d ? 6 : 3`' % c, '6.6p6')
@@ -937,9 +934,7 @@ def r1316_constexpr(P, rep, rule='R13.16'):
             ('&array[i]', lambda: tree('ND_ADDR', ptr('int'), tree('ND_DEREF', 'int', tree('ND_ADD', ptr('int'), v('array-int'), tree('ND_MUL', 'long', num(1, 'long'), num(4, 'long')))))),
             ('address+integer', lambda: tree('ND_ADD', ptr('int'), tree('ND_ADDR', ptr('int'), v('int')), tree('ND_MUL', 'long', num(1, 'long'), num(4, 'long')))),
             ('address-integer', lambda: tree('ND_SUB', ptr('int'), v('array-int'), num(4, 'long'))),
-            ('cast-of-address', lambda: tree('ND_CAST', 'long', tree('ND_ADDR', ptr('int'), v('int')))),
             ('pointer-cast-of-address', lambda: tree('ND_CAST', ptr('char'), tree('ND_ADDR', ptr('int'), v('int')))),
-            ('conditional-address', lambda: tree('ND_COND', ptr('int'), cond=num(1), then=tree('ND_ADDR', ptr('int'), v('int')), els=tree('ND_ADDR', ptr('int'), v('int')))),
             ('integer-constant', lambda: tree('ND_ADD', 'int', num(6), num(3))),
         ]
         for name, mk in forms:
